@@ -929,6 +929,47 @@ def make_machine(ctx, mode, corpus_specs=(), warm_weight=1):
             def strip(self, k, aggr):
                 self.go({"op": "strip", "k": k, "aggr": aggr})
 
+        if mode in ("C02", "C07"):
+            # read (fills the wrapper caches), strip, grow again, then edit where a declaration was re-created:
+            # four primitive steps that a uniform choice of rules almost never lines up
+            @rule(k=st.sampled_from(["rstrip", "optimize_width"]), aggr=st.booleans(),
+                  wk=st.sampled_from(["columns", "get_column", "rows", "get_row_noclone", "get_column_cells", "none"]), kx_=kx, ky=kx,
+                  grow=st.sampled_from(["set_value", "append_row", "append_column", "set_row_values"]), v=vi, s=si, r=rowarg,
+                  gx=st.integers(0, 4), gy=st.integers(0, 4),
+                  edit=st.sampled_from(["delete_column", "insert_column", "set_column", "delete_row", "insert_row", "set_value", "none"]),
+                  ecls=COORD_CLS, ek=kx, er=st.integers(1, 3), ecs=st.integers(0, 2))
+            def strip_cycle(self, k, aggr, wk, kx_, ky, grow, v, s, r, gx, gy, edit, ecls, ek, er, ecs):
+                if self.r is None or self.r.dead:
+                    return
+                if wk != "none":
+                    self.go({"op": "warm", "k": wk, "kx": kx_, "ky": ky})
+                self.go({"op": "strip", "k": k, "aggr": aggr})
+                if self.r.dead:
+                    return
+                w, h = self.r.m.width, self.r.m.height
+                if grow == "set_value":
+                    self.go({"op": "set_value", "x": min(w + gx, MAXDIM + 2), "y": min(h + gy, MAXDIM + 2), "v": v, "s": s, "form": "t"})
+                elif grow == "append_row":
+                    self.go({"op": "append_row", "row": r})
+                elif grow == "append_column":
+                    self.go({"op": "append_column", "r": er, "cs": ecs})
+                else:
+                    self.go({"op": "set_row_values", "y": min(h + gy, MAXDIM + 2), "vals": [v] * (gx + 1), "s": s, "form": "t"})
+                if self.r.dead or edit == "none":
+                    return
+                self.r.labels.add("strip-regrow-edit")
+                if edit in ("delete_column", "insert_column", "set_column"):
+                    op = {"op": edit, "x": self.X(ecls, ek), "form": "t"}
+                    if edit != "delete_column":
+                        op.update({"r": er, "cs": ecs})
+                    self.go(op)
+                elif edit == "delete_row":
+                    self.go({"op": "delete_row", "y": self.Y(ecls, ek), "form": "t"})
+                elif edit == "insert_row":
+                    self.go({"op": "insert_row", "y": self.Y(ecls, ek), "row": r, "form": "t"})
+                else:
+                    self.go({"op": "set_value", "x": self.X(ecls, ek), "y": self.Y(ecls, ek), "v": v, "s": s, "form": "t"})
+
         @rule(really=st.integers(0, 5))
         def clear(self, really):
             if really == 0:
